@@ -177,6 +177,16 @@ bench("hier3", ["P", "P.c", "P.c.g", "Q"],
       procs=[ev("P.c", 2)])
 
 
+# Wrapped mailbox at the time of a deadlock: j no-op events, then a trigger that sends an event and a query to its
+# own model: the queued messages straddle the end of the ring buffer for suitable (non power of two) capacities.
+for j in range(4):
+    bench(f"qwrap{j}", ["A", "B"],
+          prog=[[NOP],
+                [send(1, 1), query(2, 1)]],   # 2 (A): an event then a query to itself
+          ports={"A": [out(conn("A")), req(conn("A"))]},
+          procs=[ev("A", 1)] * j + [ev("A", 2)])
+
+
 def constants(b):
     ports_tla = {m: [[dict(tgt=c["tgt"], mode=c["mode"], accept=set(c["accept"]), delta=c["delta"])
                       for c in p["conns"]] for p in b["ports"][m]] for m in b["models"]}
